@@ -235,3 +235,48 @@ if __name__ == "__main__":
     t0 = time.time()
     print(build("release", what))
     print("built in %.1fs" % (time.time() - t0))
+
+
+FUZZ_MANIFEST = """[package]
+name = "vfuzz"
+version = "0.0.0"
+edition = "2021"
+publish = false
+
+[package.metadata]
+cargo-fuzz = true
+
+[dependencies]
+libfuzzer-sys = "0.4"
+slicec = {{ path = "{repo}/slicec" }}
+
+[[bin]]
+name = "compile"
+path = "{verif}/fuzz-harness/compile.rs"
+test = false
+doc = false
+bench = false
+
+[workspace]
+"""
+
+
+def build_fuzz():
+    """libFuzzer + AddressSanitizer build of the compile target (cargo-fuzz, nightly). Returns the path of the fuzzer binary."""
+    outer = os.path.join(tdir(), "gen", "fuzzproj")
+    g = os.path.join(outer, "fuzz")
+    os.makedirs(os.path.join(outer, "src"), exist_ok=True)
+    os.makedirs(g, exist_ok=True)
+    _write_if_changed(os.path.join(outer, "Cargo.toml"), '[package]\nname = "fuzzproj"\nversion = "0.0.0"\nedition = "2021"\n[workspace]\nmembers = ["."]\nexclude = ["fuzz"]\n')
+    _write_if_changed(os.path.join(outer, "src", "lib.rs"), "")
+    _write_if_changed(os.path.join(g, "Cargo.toml"), FUZZ_MANIFEST.format(verif=VERIF, repo=repo()))
+    lock = os.path.join(g, "Cargo.lock")
+    if not os.path.exists(lock):
+        shutil.copy(os.path.join(repo(), "Cargo.lock"), lock)
+    td = os.path.join(tdir(), "cargo-fuzz")
+    env = env_for_cargo()
+    env["CARGO_TARGET_DIR"] = td
+    with open(os.path.join(tdir(), ".build.lock"), "w") as lk:
+        fcntl.flock(lk, fcntl.LOCK_EX)
+        _run(["cargo", "+nightly", "fuzz", "build", "compile"], env, cwd=outer)
+    return os.path.join(td, "x86_64-unknown-linux-gnu", "release", "compile")
